@@ -678,7 +678,7 @@ type site struct {
 }
 
 func genPipeCase(r *vlib.R, emit func(string)) int {
-	polS := genPolicy(r, r.Chance(5, 6))
+	polS := genPolicy(r, r.Chance(3, 4))
 	spec := specFrom(strings.Fields(polS), false)
 	capS := vlib.Pick(r, []int{0, 120, 300, 3600, 100000})
 	pf := vlib.Pick(r, []int{0, 50, 90, 50, 90, 10, 5, 95})
@@ -686,7 +686,11 @@ func genPipeCase(r *vlib.R, emit func(string)) int {
 	// down its "validation failed, using defaults" branch
 	csize := vlib.Pick(r, []int{1024, 1024, 4096, 0, 512, 1023})
 	// one case in four takes the server's own route: the configuration as a FILE through config.Load
-	emit(fmt.Sprintf("pipe %s %s %d %d %d", vlib.Pick(r, []string{"new", "new", "new", "load"}), polS, capS, pf, csize))
+	how := vlib.Pick(r, []string{"new", "new", "new", "load"})
+	if !spec.valid() && r.Bool() {
+		how = "load" // an invalid block must fail closed on the file route too
+	}
+	emit(fmt.Sprintf("pipe %s %s %d %d %d", how, polS, capS, pf, csize))
 	if pf > 90 {
 		pf = 0
 	}
